@@ -148,6 +148,7 @@ M("C05", "c05_longest_chain_rule", ["saito_core::core::consensus::blockchain::Bl
   "new segment 1..=3 blocks x old segment 0..=3 blocks (thorough: up to 4), every id / burn fee / latest id; answer compared with the u128 reference rule")
 M("C05", "c05_validate_gt_gate", ["Blockchain::validate (async body; wind_chain / unwind_chain inlined)"], "segments (|new|,|old|) in {(1,0),(2,1),(3,1)}; the check's answer and every block's validity free", covers=3)
 M("C05", "c05_orphan_disturbs_nothing", ["Blockchain::add_block (async body, up to the fork-choice comparison)"], "every path of the prefix (about 400); the disconnect loop cut at its first write; classes block id >= tip id (must hold) and < tip id (known finding)", covers=1)
+M("C05", "c05_reorg_winds_whole_chain", ["Blockchain::validate", "Blockchain::wind_chain", "Blockchain::unwind_chain"], "same universe as c04_machine: |new| 1..=3 (4), |old| 0..=2 (3), every validity pattern", covers=4)
 M("C05", "c05_gt_window", ["saito_core::core::consensus::blockchain::is_golden_ticket_count_valid_"],
   "ancestor chains of depth 0..=6 with every golden-ticket flag pattern, current-block flag and bypass symbolic")
 
@@ -255,6 +256,7 @@ M("C17", "c17_disconnect_step", ["Peer::mark_as_disconnected"], "arbitrary Peer 
 M("C17", "c17_challenge_issue_step", ["Peer::initiate_handshake (async body)", "Peer::handle_handshake_challenge (async body)"], "arbitrary Peer and received challenge; the 32 random bytes are a symbolic input; recorded challenge = drawn bytes = sent challenge; signed message = received challenge, key = wallet private key", covers=1)
 M("C17", "c17_network_gate", ["Network::handle_handshake_response (async body)"], "every path up to the authentication bookkeeping; peer known or not, with or without recorded key, any status; the peer-level step's result a symbolic input", covers=1)
 
+M("C17", "c17_new_peer_step", ["Network::handle_new_peer (async body)"], "index new or with a surviving entry in any status, with or without key / static config", covers=1)
 # ============================================================================== C07
 PROPERTY_ASSUMPTIONS["C07"] = [
     "producer and validator call the same Block::generate_consensus_values; this claim is conditional on it returning the same ConsensusValues cv on both sides (its determinism over chain state and the transaction set - the fee lottery, ATR selection, smoothing arithmetic - is outside the claim); cv is one fully symbolic struct shared by both explorations",
@@ -288,6 +290,7 @@ M("C14", "c14_reorg_revalidates_pool", ["Blockchain::remove_block_transactions",
 M("C14", "c14_delete_recomputes_work", ["Mempool::delete_transactions", "Blockchain::remove_block_transactions"], "pool of two transactions with symbolic work and signatures, stale counter arbitrary, confirmed transaction arbitrary; call order on every path of remove_block_transactions", covers=2)
 M("C14", "c14_bundle_releases_reservations", ["Mempool::bundle_block (async body)"], "the created block a symbolic input: two transactions of symbolic type with one reserved input each; staking transaction / can_bundle / generate answers favourable", covers=1)
 M("C14", "c14_delete_keeps_pooled_reserved", ["Mempool::delete_transactions"], "pool with one transaction (Inv), block carrying a different transaction whose input may or may not be the same output; signatures, keys, type symbolic", covers=1)
+M("C14", "c14_hand_back_only_own_blocks", ["Blockchain::add_block_transactions_back (async body)"], "every path; creator key, wallet key, routed_from_peer symbolic", covers=1)
 M("C14", "c14_delete_releases_reservations", ["Mempool::delete_transactions"], "pool holding one transaction with one input; the block confirms that transaction")
 
 # ============================================================================== C02
